@@ -149,5 +149,17 @@ def run(pid, mobs, tier, log_dir):
 
 
 def replay_file(path):
-    print("engine-M replays are ordinary cargo tests: cd /verif/replay && cargo test --offline --test <file>")
+    """re-run the obligation recorded in an engine-M replay file against the current tree"""
+    import json
+    rec = json.load(open(path))
+    ob = dict(rec["params"])
+    ob.setdefault("claim", "")
+    ob.setdefault("bound", "")
+    mod = importlib.import_module("vlib.mir.props." + rec["prop_module"])
+    r = mod.run(ob, "quick")
+    print(json.dumps({k: r.get(k) for k in ("verdict", "text", "witness")}, indent=1))
+    if r.get("verdict") == "counterexample":
+        print("REPRODUCED")
+        return 1
+    print("NOT REPRODUCED")
     return 0
